@@ -33,9 +33,9 @@ def run(ctx):
     ctx.cov["accessors_observed"] = len(accessors)
     ctx.cov["writes_rejected_by_the_code"] = rejected
     for need in ("market", "store"):
-        if not any(e["scope"] == need and e["ok"] for e in ev):
+        if not fails and not any(e["scope"] == need and e["ok"] for e in ev):
             raise vlib.ToolError("vacuity: no accepted %s write" % need)
-    if not any(e["closed"] and e["cfg"].get("flag.enable_market_closed_params") == "true" for e in ev):
+    if not fails and not any(e["closed"] and e["cfg"].get("flag.enable_market_closed_params") == "true" for e in ev):
         raise vlib.ToolError("vacuity: closed-market switch never in force")
     for f in fails[:100]:      # the first failures are enough to decide and to replay
         e = ev[f["i"] - 1]
